@@ -574,4 +574,8 @@ def escape_flow_name(name: str) -> str:
         .replace('"', "")
         .replace("-", "_")
     )
-    return re.sub(r"\b\d+\b", lambda match: f"_{match.group()}_", result)
+    result = re.sub(r"\b\d+\b", lambda match: f"_{match.group()}_", result)
+    # The name must be what the parser registers the flow under: no parameter or
+    # comment markers, no surplus white space
+    result = result.replace("$", "").replace("#", "")
+    return " ".join(result.split())
